@@ -1,12 +1,804 @@
-//! C17 — monitor not built yet (stub so that the registry is complete).
+//! C17 — reachability-based checkers follow their path specification.
+//!
+//! Monitor shape: CWE367 (TOCTOU) and CWE243 (chroot) are run through `CWE_MODULE.run` on an
+//! `AnalysisResults` built as the CLI builds it. The oracle is a block-level reachability search
+//! over the harness's own intraprocedural graph of the (normalized) program, written from the
+//! property statement.
+
 use crate::core::*;
+use crate::irb::*;
+use crate::prng::Rng;
+use cwe_checker_lib::analysis::graph;
+use cwe_checker_lib::intermediate_representation::*;
+use cwe_checker_lib::pipeline::AnalysisResults;
+use cwe_checker_lib::utils::log::CweWarning;
+use serde_json::{json, Value};
+use std::collections::{BTreeMap, BTreeSet};
+
+
+/// Report a violation, building detail and case only if it would replace the stored witness of its signature.
+macro_rules! viol {
+    ($rep:expr, $sig:expr, $size:expr, $detail:expr, $case:expr) => {{
+        let sig: String = $sig.into();
+        let keep = match $rep.violations.get(&sig) {
+            Some(old) => old.size > $size,
+            None => true,
+        };
+        if keep {
+            $rep.violation(sig, None, $detail, $case, $size);
+        } else {
+            $rep.violation_count += 1;
+        }
+    }};
+}
 
 pub fn info() -> CheckInfo {
     CheckInfo {
         id: "C17",
-        rule: "(monitor not built yet)",
-        assumptions: &[],
-        run: |_cfg| Report::new(),
-        replay: |_cfg, _case| Report::new(),
+        rule: "random x86-64-style programs (1..4 functions of 2..9 blocks: branches, conditional branches, loops, indirect jumps with target hints, returns, dead ends, internal calls to returning and non-returning functions, recursion, indirect calls, extern calls to configured check/use symbols, chroot, chdir, privilege droppers and decoys; return-less calls for chroot and non-configured symbols; calls as second jump after a conditional branch; jumps into other functions before normalization) with a random import table (chdir/chroot/check/use symbols present or absent) are normalized (basic; basic+optimize in half of the cases) and given with random configurations (1..4 (check,use) pairs sharing symbols; subsets of privilege droppers) to CWE367 and CWE243 via CWE_MODULE.run. Oracle: reachability over the harness's own intraprocedural block graph from the return-site block of the check/chroot call, not passing another call to the check function/chroot. CWE367: multiset of (check symbol, use symbol, return-site block tid+address) must match and the reported use call must be one of the reachable ones; CWE243: multiset of (call tid, address, function name). A panic is a violation. non-trivial = the program contains at least one check/chroot call that must be reported and at least one that must not; distinct = hash of (program, configurations)",
+        assumptions: &[
+            "names in the import table are unique and every extern symbol is stored under its own tid",
+            "domain guard: calls to symbols occurring in a configured (check,use) pair and to chdir always carry a return site and these symbols are ordinary returning functions; return-less calls are generated for chroot, privilege droppers and non-configured symbols only; check != use within a pair",
+            "an internal call is followed to its return site iff the callee contains a return instruction (the notion of 'callee can return' of the control flow graph and of normalize_basic); indirect calls and extern calls are followed to their return site; CALLOTHER is not generated",
+            "the program judged is the normalized one the check modules receive; after normalization every jump target lies in the function of the jump (cases where not are counted inconclusive)",
+            "a block contains at most one call and it is the last jump of the block",
+        ],
+        run,
+        replay,
     }
+}
+
+// ---------------------------------------------------------------------------
+// The harness's own view of the program
+
+struct B<'a> {
+    sub: usize,
+    blk: &'a Term<Blk>,
+}
+
+#[derive(Clone, Copy, PartialEq, Eq)]
+struct Mode {
+    /// do not traverse the return edge of another call to the source symbol (the specified behaviour)
+    stop_at_source: bool,
+    /// additionally follow internal calls into the callee and returns back to every return site (NOT the specified behaviour)
+    interprocedural: bool,
+}
+const SPEC: Mode = Mode { stop_at_source: true, interprocedural: false };
+
+pub struct Prog<'a> {
+    project: &'a Project,
+    subs: Vec<&'a Term<Sub>>,
+    blocks: Vec<B<'a>>,
+    index: BTreeMap<(usize, &'a Tid), usize>,
+    any_index: BTreeMap<&'a Tid, usize>,
+    sub_index: BTreeMap<&'a Tid, usize>,
+    sub_returns: Vec<bool>,
+    entry: Vec<Option<usize>>,
+    /// per function: block ids of the return sites of calls to it
+    return_sites: Vec<Vec<usize>>,
+    externs: BTreeSet<&'a Tid>,
+    pub cross_sub_jump: std::cell::Cell<bool>,
+}
+
+impl<'a> Prog<'a> {
+    pub fn new(project: &'a Project) -> Prog<'a> {
+        let prog = &project.program.term;
+        let subs: Vec<&Term<Sub>> = prog.subs.values().collect();
+        let mut blocks = Vec::new();
+        let mut index = BTreeMap::new();
+        let mut any_index = BTreeMap::new();
+        let mut sub_index = BTreeMap::new();
+        let mut sub_returns = Vec::new();
+        let mut entry = Vec::new();
+        for (si, s) in subs.iter().enumerate() {
+            sub_index.insert(&s.tid, si);
+            entry.push(if s.term.blocks.is_empty() { None } else { Some(blocks.len()) });
+            let mut returns = false;
+            for b in &s.term.blocks {
+                index.insert((si, &b.tid), blocks.len());
+                any_index.entry(&b.tid).or_insert(blocks.len());
+                returns |= b.term.jmps.iter().any(|j| matches!(j.term, Jmp::Return(_)));
+                blocks.push(B { sub: si, blk: b });
+            }
+            sub_returns.push(returns);
+        }
+        let externs: BTreeSet<&Tid> = prog.extern_symbols.values().map(|e| &e.tid).collect();
+        let mut p = Prog { project, subs, blocks, index, any_index, sub_index, sub_returns, entry, return_sites: Vec::new(), externs, cross_sub_jump: std::cell::Cell::new(false) };
+        let mut return_sites = vec![Vec::new(); p.subs.len()];
+        for b in &p.blocks {
+            for j in &b.blk.term.jmps {
+                if let Jmp::Call { target, return_: Some(r) } = &j.term {
+                    if let (Some(callee), Some(site)) = (p.sub_index.get(target), p.index.get(&(b.sub, r))) {
+                        return_sites[*callee].push(*site);
+                    }
+                }
+            }
+        }
+        p.return_sites = return_sites;
+        p
+    }
+
+    pub fn extern_tid(&self, name: &str) -> Option<&'a Tid> {
+        self.project.program.term.extern_symbols.values().find(|e| e.name == name).map(|e| &e.tid)
+    }
+
+    fn resolve(&self, sub: usize, t: &Tid) -> Option<usize> {
+        match self.index.get(&(sub, t)) {
+            Some(i) => Some(*i),
+            None => {
+                if self.any_index.contains_key(t) {
+                    self.cross_sub_jump.set(true);
+                }
+                None
+            }
+        }
+    }
+
+    /// Successor blocks of `b` with the call (if any) whose return edge leads there.
+    fn successors(&self, b: usize, source: &Tid, mode: Mode) -> Vec<usize> {
+        let blk = &self.blocks[b];
+        let mut out = Vec::new();
+        let push = |t: &Tid, out: &mut Vec<usize>| {
+            if let Some(i) = self.resolve(blk.sub, t) {
+                out.push(i);
+            }
+        };
+        for j in &blk.blk.term.jmps {
+            match &j.term {
+                Jmp::Branch(t) | Jmp::CBranch { target: t, .. } => push(t, &mut out),
+                Jmp::BranchInd(_) => {
+                    for t in &blk.blk.term.indirect_jmp_targets {
+                        push(t, &mut out);
+                    }
+                }
+                Jmp::Call { target, return_ } => {
+                    if self.externs.contains(target) {
+                        if mode.stop_at_source && target == source {
+                            continue; // passing another call to the check function is not allowed
+                        }
+                        if let Some(r) = return_ {
+                            push(r, &mut out);
+                        }
+                    } else if let Some(callee) = self.sub_index.get(target) {
+                        if self.sub_returns[*callee] {
+                            if let Some(r) = return_ {
+                                push(r, &mut out);
+                            }
+                        }
+                        if mode.interprocedural {
+                            if let Some(e) = self.entry[*callee] {
+                                out.push(e);
+                            }
+                        }
+                    }
+                }
+                Jmp::CallInd { return_, .. } => {
+                    if let Some(r) = return_ {
+                        push(r, &mut out);
+                    }
+                }
+                Jmp::Return(_) => {
+                    if mode.interprocedural {
+                        out.extend(self.return_sites[blk.sub].iter().cloned());
+                    }
+                }
+                Jmp::CallOther { .. } => (),
+            }
+        }
+        out
+    }
+
+    /// Calls to `sink` in blocks reachable from block `start` (inclusive).
+    fn reach(&self, start: usize, source: &Tid, sink: &Tid, mode: Mode) -> BTreeSet<&'a Tid> {
+        let mut found = BTreeSet::new();
+        let mut visited = vec![false; self.blocks.len()];
+        visited[start] = true;
+        let mut work = vec![start];
+        while let Some(b) = work.pop() {
+            let blk: &'a Term<Blk> = self.blocks[b].blk;
+            for j in &blk.term.jmps {
+                if let Jmp::Call { target, .. } = &j.term {
+                    if target == sink {
+                        found.insert(&j.tid);
+                    }
+                }
+            }
+            for s in self.successors(b, source, mode) {
+                if !visited[s] {
+                    visited[s] = true;
+                    work.push(s);
+                }
+            }
+        }
+        found
+    }
+
+    /// All calls to the extern symbol `target`: (block id, jump).
+    fn calls_to(&self, target: &Tid) -> Vec<(usize, &'a Term<Jmp>)> {
+        let mut v = Vec::new();
+        for (i, b) in self.blocks.iter().enumerate() {
+            let blk: &'a Term<Blk> = b.blk;
+            for j in &blk.term.jmps {
+                if matches!(&j.term, Jmp::Call { target: t, .. } if t == target) {
+                    v.push((i, j));
+                }
+            }
+        }
+        v
+    }
+
+    fn sub_calls(&self, sub: usize, target: &Tid) -> bool {
+        self.calls_to(target).iter().any(|(b, _)| self.blocks[*b].sub == sub)
+    }
+}
+
+// ---------------------------------------------------------------------------
+// Expected results
+
+/// CWE367: (check, use, return-site block tid, its address) -> (count, allowed use calls (tid, address), class)
+type Key367 = (String, String, String, String);
+pub struct Exp367 {
+    entries: BTreeMap<Key367, (usize, BTreeSet<(String, String)>)>,
+    /// keys that would only be reported by a search that passes a second check call / leaves the function
+    only_past_source: BTreeSet<Key367>,
+    only_interprocedural: BTreeSet<Key367>,
+    reported: usize,
+    silent: usize,
+    out_of_domain: bool,
+}
+
+fn pairs_of(config: &Value) -> Vec<(String, String)> {
+    config["pairs"].as_array().map(|a| a.iter().map(|p| (p[0].as_str().unwrap_or("").to_string(), p[1].as_str().unwrap_or("").to_string())).collect()).unwrap_or_default()
+}
+
+pub fn expected_367(p: &Prog, config: &Value, rep: &mut Report) -> Exp367 {
+    let mut e = Exp367 { entries: BTreeMap::new(), only_past_source: BTreeSet::new(), only_interprocedural: BTreeSet::new(), reported: 0, silent: 0, out_of_domain: false };
+    for (check, use_) in pairs_of(config) {
+        let (Some(src), Some(snk)) = (p.extern_tid(&check), p.extern_tid(&use_)) else {
+            rep.obs("367:pair-not-imported");
+            continue;
+        };
+        if src == snk {
+            e.out_of_domain = true;
+            continue;
+        }
+        for (b, j) in p.calls_to(src) {
+            let Jmp::Call { return_, .. } = &j.term else { continue };
+            let site = match return_.as_ref().and_then(|r| p.resolve(p.blocks[b].sub, r).map(|i| (r, i))) {
+                Some(s) => s,
+                None => {
+                    e.out_of_domain = true; // check call without (resolvable) return site
+                    continue;
+                }
+            };
+            let key: Key367 = (check.clone(), use_.clone(), format!("{}", site.0), site.0.address.clone());
+            let found = p.reach(site.1, src, snk, SPEC);
+            if !found.is_empty() {
+                let entry = e.entries.entry(key).or_insert((0, BTreeSet::new()));
+                entry.0 += 1;
+                entry.1.extend(found.iter().map(|t| (format!("{t}"), t.address.clone())));
+                e.reported += 1;
+                rep.obs("367:check-call:use-reachable");
+            } else {
+                e.silent += 1;
+                let past = !p.reach(site.1, src, snk, Mode { stop_at_source: false, interprocedural: false }).is_empty();
+                let inter = !p.reach(site.1, src, snk, Mode { stop_at_source: true, interprocedural: true }).is_empty();
+                if past {
+                    e.only_past_source.insert(key.clone());
+                    rep.obs("367:check-call:use-only-behind-second-check");
+                }
+                if inter {
+                    e.only_interprocedural.insert(key.clone());
+                    rep.obs("367:check-call:use-only-via-call-or-return-edges");
+                }
+                if !past && !inter {
+                    rep.obs("367:check-call:use-unreachable");
+                }
+            }
+        }
+    }
+    e
+}
+
+type Key243 = (Vec<String>, Vec<String>, Vec<String>);
+pub struct Exp243 {
+    entries: Vec<Key243>,
+    reported: usize,
+    silent: usize,
+    /// call tids with the class of the decision (for diagnostics)
+    class: BTreeMap<String, &'static str>,
+}
+
+pub fn expected_243(p: &Prog, config: &Value, rep: &mut Report) -> Exp243 {
+    let mut e = Exp243 { entries: Vec::new(), reported: 0, silent: 0, class: BTreeMap::new() };
+    let Some(chroot) = p.extern_tid("chroot") else {
+        rep.obs("243:chroot-not-imported");
+        return e;
+    };
+    let chdir = p.extern_tid("chdir");
+    let droppers: Vec<&Tid> = config["priviledge_dropping_functions"].as_array().map(|a| a.iter().filter_map(|n| n.as_str().and_then(|n| p.extern_tid(n))).collect()).unwrap_or_default();
+    for (b, j) in p.calls_to(chroot) {
+        let sub = p.blocks[b].sub;
+        let Jmp::Call { return_, .. } = &j.term else { continue };
+        let two_jump = p.blocks[b].blk.term.jmps.len() > 1;
+        let (report, class): (bool, &'static str) = match chdir {
+            None => (true, "chdir-not-imported"),
+            Some(chdir) => {
+                let reachable = match return_.as_ref().and_then(|r| p.resolve(sub, r)) {
+                    Some(site) => !p.reach(site, chroot, chdir, SPEC).is_empty(),
+                    None => false, // nothing is reachable after a call without return site
+                };
+                let excused = p.sub_calls(sub, chdir) && droppers.iter().any(|d| p.sub_calls(sub, d));
+                if reachable {
+                    (false, "chdir-reachable")
+                } else if excused {
+                    (false, "function-calls-chdir-and-dropper")
+                } else if return_.is_none() {
+                    (true, "no-return-site")
+                } else {
+                    (true, "chdir-unreachable")
+                }
+            }
+        };
+        let class: &'static str = match (class, two_jump) {
+            ("chdir-not-imported", true) => "chdir-not-imported:in-two-jump-block",
+            ("chdir-reachable", true) => "chdir-reachable:in-two-jump-block",
+            ("function-calls-chdir-and-dropper", true) => "function-calls-chdir-and-dropper:in-two-jump-block",
+            ("no-return-site", true) => "no-return-site:in-two-jump-block",
+            ("chdir-unreachable", true) => "chdir-unreachable:in-two-jump-block",
+            (c, _) => c,
+        };
+        rep.obs(&format!("243:chroot-call:{class}"));
+        e.class.insert(format!("{}", j.tid), class);
+        if report {
+            e.reported += 1;
+            e.entries.push((vec![j.tid.address.clone()], vec![format!("{}", j.tid)], vec![p.subs[sub].term.name.clone()]));
+        } else {
+            e.silent += 1;
+        }
+    }
+    e.entries.sort();
+    e
+}
+
+// ---------------------------------------------------------------------------
+// Running the real modules and comparing
+
+fn run_module(project: &Project, module: &cwe_checker_lib::CweModule, params: &Value) -> Result<Vec<CweWarning>, String> {
+    guard(|| {
+        let cfg = graph::get_program_cfg(&project.program);
+        let binary: Vec<u8> = Vec::new();
+        let results = AnalysisResults::new(&binary, &cfg, project);
+        let (_logs, warnings) = (module.run)(&results, params);
+        warnings
+    })
+}
+
+fn size_of(project: &Project) -> u64 {
+    project.program.term.subs.values().map(|s| 2 + s.term.blocks.iter().map(|b| 1 + b.term.jmps.len() as u64).sum::<u64>()).sum::<u64>() + project.program.term.extern_symbols.len() as u64
+}
+
+/// Shape of the chroot blocks of the program (for panic signatures).
+fn chroot_shape(p: &Prog) -> &'static str {
+    let Some(chroot) = p.extern_tid("chroot") else { return "no-chroot" };
+    let calls = p.calls_to(chroot);
+    let two = calls.iter().any(|(b, _)| p.blocks[*b].blk.term.jmps.len() > 1);
+    let noret = calls.iter().any(|(_, j)| matches!(&j.term, Jmp::Call { return_: None, .. }));
+    match (two, noret) {
+        (true, _) => "chroot-in-two-jump-block",
+        (false, true) => "chroot-without-return-site",
+        (false, false) => "plain",
+    }
+}
+
+pub fn check_case(project: &Project, configs: &Value, rep: &mut Report) -> bool {
+    let p = Prog::new(project);
+    let size = size_of(project);
+    let case = || json!({"project": project_to_json(project), "configs": configs});
+    let text = || format!("config: {}\n{}", configs, show_program(&project.program.term));
+    let mut tmp = Report::new(); // observations are only merged if the case is inside the domain
+    let e367 = expected_367(&p, &configs["CWE367"], &mut tmp);
+    let e243 = expected_243(&p, &configs["CWE243"], &mut tmp);
+    if p.cross_sub_jump.get() {
+        rep.inconclusive("jump-target-outside-function-after-normalization");
+        return false;
+    }
+    if e367.out_of_domain {
+        rep.inconclusive("case-outside-domain-guard");
+        return false;
+    }
+    rep.merge(tmp);
+
+    // ---- CWE367
+    rep.eval();
+    match run_module(project, &cwe_checker_lib::checkers::cwe_367::CWE_MODULE, &configs["CWE367"]) {
+        Err(msg) => viol!(rep, format!("CWE367:panic:{}", panic_site(&msg)), size, format!("CWE367 panicked: {msg}\n{}", text()), case()),
+        Ok(ws) => {
+            let mut got: BTreeMap<Key367, Vec<(String, String)>> = BTreeMap::new();
+            for w in &ws {
+                if w.name != "CWE367" || w.tids.len() != 2 || w.addresses.len() != 2 || w.symbols.len() != 2 {
+                    viol!(rep, "CWE367:malformed-warning", size, format!("CWE367 warning without (check, use) tids/addresses/symbols: {w:?}\n{}", text()), case());
+                    continue;
+                }
+                got.entry((w.symbols[0].clone(), w.symbols[1].clone(), w.tids[0].clone(), w.addresses[0].clone())).or_default().push((w.tids[1].clone(), w.addresses[1].clone()));
+            }
+            let mut ok = true;
+            for (key, (n, allowed)) in &e367.entries {
+                let g = got.get(key).map(|v| v.len()).unwrap_or(0);
+                if g < *n {
+                    ok = false;
+                    viol!(rep, "CWE367:missing-warning", size, format!("pair ({},{}) check call returning to block {} @{}: a use call is reachable without passing another check call (reachable use calls {:?}); expected {n} warning(s), observed {g}\n{}", key.0, key.1, key.2, key.3, allowed, text()), case());
+                }
+            }
+            for (key, uses) in &got {
+                let n = e367.entries.get(key).map(|e| e.0).unwrap_or(0);
+                if uses.len() > n {
+                    ok = false;
+                    let why = if e367.only_past_source.contains(key) {
+                        "use-only-behind-second-check-call"
+                    } else if e367.only_interprocedural.contains(key) {
+                        "use-only-via-call-or-return-edges"
+                    } else {
+                        "other"
+                    };
+                    viol!(rep, format!("CWE367:surplus-warning:{why}"), size, format!("pair ({},{}) return-site block {} @{}: expected {n} warning(s), observed {} (reported use calls {:?}); class: {why}\n{}", key.0, key.1, key.2, key.3, uses.len(), uses, text()), case());
+                }
+                if let Some((_, allowed)) = e367.entries.get(key) {
+                    for u in uses {
+                        if !allowed.contains(u) {
+                            ok = false;
+                            viol!(rep, "CWE367:reported-use-call-not-reachable", size, format!("pair ({},{}) return-site block {}: reported use call {:?} is not among the reachable use calls {:?}\n{}", key.0, key.1, key.2, u, allowed, text()), case());
+                        }
+                    }
+                }
+            }
+            if ok {
+                rep.obs(&format!("CWE367:agree:{}", match ws.len() { 0 => "0", 1 => "1", 2..=3 => "2-3", _ => "4+" }));
+            }
+        }
+    }
+
+    // ---- CWE243
+    rep.eval();
+    match run_module(project, &cwe_checker_lib::checkers::cwe_243::CWE_MODULE, &configs["CWE243"]) {
+        Err(msg) => viol!(rep, format!("CWE243:panic:{}:{}", chroot_shape(&p), panic_site(&msg)), size, format!("CWE243 panicked (must handle every program): {msg}\n{}", text()), case()),
+        Ok(ws) => {
+            let mut got: Vec<Key243> = ws.iter().map(|w| (w.addresses.clone(), w.tids.clone(), w.symbols.clone())).collect();
+            got.sort();
+            if let Some(w) = ws.iter().find(|w| w.name != "CWE243") {
+                viol!(rep, "CWE243:wrong-check-name", size, format!("CWE243 produced a warning named {}", w.name), case());
+            }
+            if got != e243.entries {
+                let missing: Vec<&Key243> = e243.entries.iter().filter(|k| count(&e243.entries, k) > count(&got, k)).collect();
+                let surplus: Vec<&Key243> = got.iter().filter(|k| count(&got, k) > count(&e243.entries, k)).collect();
+                let class_of = |k: &Key243| -> &'static str { k.1.first().and_then(|t| e243.class.get(t)).copied().unwrap_or("no-such-chroot-call") };
+                let (what, class) = if let Some(k) = missing.first() {
+                    // a surplus with the same tid means a wrong address/symbol only
+                    if surplus.iter().any(|s| s.1 == k.1) { ("wrong-fields", class_of(k)) } else { ("missing-warning", class_of(k)) }
+                } else {
+                    ("surplus-warning", surplus.first().map(|k| class_of(k)).unwrap_or("?"))
+                };
+                viol!(rep, format!("CWE243:{what}:{class}"), size, format!("CWE243: expected {} warning(s), observed {}.\n  expected but not reported (addresses, tids, symbols): {:?}\n  reported but not expected: {:?}\n  oracle class of each chroot call: {:?}\n{}", e243.entries.len(), got.len(), missing, surplus, e243.class, text()), case());
+            } else {
+                rep.obs(&format!("CWE243:agree:{}", match ws.len() { 0 => "0", 1 => "1", 2..=3 => "2-3", _ => "4+" }));
+            }
+        }
+    }
+    let nontrivial = e367.reported + e243.reported > 0 && e367.silent + e243.silent > 0;
+    if nontrivial {
+        rep.nontrivial(crate::prng::mix(fp_of(&project.program), fp_json(configs)));
+    }
+    nontrivial
+}
+
+fn count<T: PartialEq>(v: &[T], x: &T) -> usize {
+    v.iter().filter(|y| *y == x).count()
+}
+
+// ---------------------------------------------------------------------------
+// Generator
+
+pub const CHECKS: &[&str] = &["access", "stat", "lstat", "faccessat"];
+pub const USES: &[&str] = &["open", "fopen", "unlink", "chmod"];
+pub const DROPPERS: &[&str] = &["setresuid", "seteuid", "setreuid", "setuid"];
+pub const DECOYS: &[&str] = &["printf", "malloc", "exit", "chroot2", "fchdir", "open64", "access_", "xstat", "setgid", "chdir2"];
+
+pub struct Case {
+    pub project: Project,
+    pub configs: Value,
+}
+
+pub fn gen_case(rng: &mut Rng) -> Case {
+    // ---- configurations first (they determine which symbols need return sites)
+    let mut pairs: Vec<(String, String)> = Vec::new();
+    if rng.chance(1, 3) {
+        pairs.push(("access".into(), "open".into()));
+    }
+    let n_pairs = rng.range_usize(if pairs.is_empty() { 1 } else { 0 }, 3);
+    // small name universe so that pairs share symbols
+    let k = rng.range_usize(1, 3);
+    for _ in 0..n_pairs {
+        let (mut a, mut b) = (rng.pick(&CHECKS[..k + 1]).to_string(), rng.pick(&USES[..k + 1]).to_string());
+        if rng.chance(1, 10) {
+            a = rng.pick(USES).to_string(); // a use symbol of one pair is the check symbol of another
+        }
+        if rng.chance(1, 10) {
+            b = rng.pick(CHECKS).to_string();
+        }
+        if rng.chance(1, 12) {
+            b = rng.pick(DECOYS).to_string();
+        }
+        if a != b {
+            pairs.push((a, b));
+        }
+    }
+    if !pairs.is_empty() && rng.chance(1, 12) {
+        let p = rng.pick(&pairs).clone();
+        pairs.push(p);
+    }
+    let droppers: Vec<String> = match rng.below(6) {
+        0 => Vec::new(),
+        1 | 2 => DROPPERS.iter().map(|s| s.to_string()).collect(),
+        _ => {
+            let mut v: Vec<String> = DROPPERS.iter().filter(|_| rng.bool()).map(|s| s.to_string()).collect();
+            if rng.chance(1, 4) {
+                v.push(rng.pick(DECOYS).to_string());
+            }
+            v
+        }
+    };
+    let must_return: BTreeSet<String> = pairs.iter().flat_map(|(a, b)| [a.clone(), b.clone()]).chain(std::iter::once("chdir".to_string())).collect();
+    // ---- import table
+    let mut names: Vec<String> = Vec::new();
+    if rng.chance(5, 6) {
+        names.push("chroot".into());
+    }
+    if rng.chance(3, 4) {
+        names.push("chdir".into());
+    }
+    for (a, b) in &pairs {
+        for n in [a, b] {
+            if rng.chance(7, 8) {
+                names.push(n.clone());
+            }
+        }
+    }
+    for n in DROPPERS {
+        if rng.chance(1, 2) {
+            names.push(n.to_string());
+        }
+    }
+    for _ in 0..rng.below(4) {
+        names.push(rng.pick(DECOYS).to_string());
+    }
+    for _ in 0..rng.below(2) {
+        names.push(rng.pick(CHECKS).to_string());
+        names.push(rng.pick(USES).to_string());
+    }
+    let mut seen = BTreeSet::new();
+    names.retain(|n| seen.insert(n.clone()));
+    rng.shuffle(&mut names);
+    let mut externs = Vec::new();
+    let mut ext: Vec<(String, Tid)> = Vec::new();
+    for (i, n) in names.iter().enumerate() {
+        let t = tid(&format!("sub_ext_{:03}_{}", rng.below(1000), i), &format!("{:08x}", 0x500000 + i * 16));
+        let no_return = n == "exit";
+        externs.push(extern_symbol(n, t.clone(), &["RDI"], Some("RAX"), no_return));
+        ext.push((n.clone(), t));
+    }
+    // weights: interesting symbols are called more often
+    let mut call_pool: Vec<usize> = Vec::new();
+    for (i, (n, _)) in ext.iter().enumerate() {
+        let w = if n == "chroot" {
+            4
+        } else if n == "chdir" {
+            5
+        } else if must_return.contains(n) {
+            4
+        } else if DROPPERS.contains(&n.as_str()) {
+            3
+        } else {
+            1
+        };
+        for _ in 0..w {
+            call_pool.push(i);
+        }
+    }
+    // ---- functions
+    let n_subs = rng.range_usize(1, 4);
+    let sub_tids: Vec<Tid> = (0..n_subs).map(|i| tid(&format!("sub_{:08x}", 0x400000 + i * 0x100), &format!("{:08x}", 0x400000 + i * 0x100))).collect();
+    let blk_counts: Vec<usize> = (0..n_subs).map(|_| rng.range_usize(2, 9)).collect();
+    let blk_tids: Vec<Vec<Tid>> = (0..n_subs)
+        .map(|s| (0..blk_counts[s]).map(|b| tid(&format!("blk_{:08x}", 0x400000 + s * 0x100 + b * 8), &format!("{:08x}", 0x400000 + s * 0x100 + b * 8))).collect())
+        .collect();
+    let mut counter = 0u32;
+    let mut fresh = |rng: &mut Rng| -> Tid {
+        counter += 1;
+        let addr = 0x401000 + counter * 4 - if rng.chance(1, 10) { 4 } else { 0 };
+        tid(&format!("instr_{addr:08x}_{counter}"), &format!("{addr:08x}"))
+    };
+    let mut subs = Vec::new();
+    for s in 0..n_subs {
+        let n = blk_counts[s];
+        let non_returning = rng.chance(1, 6);
+        let linear = rng.chance(1, 2); // mostly fall-through chains: long paths
+        let mut blocks = Vec::new();
+        for b in 0..n {
+            let target = |rng: &mut Rng| -> Tid {
+                if rng.chance(1, 30) {
+                    let o = rng.usize_below(n_subs);
+                    blk_tids[o][rng.usize_below(blk_counts[o])].clone()
+                } else if b + 1 < n && (linear || rng.chance(1, 2)) && rng.chance(5, 6) {
+                    blk_tids[s][b + 1].clone()
+                } else if b + 1 < n && rng.chance(2, 3) {
+                    blk_tids[s][rng.range_usize(b + 1, n - 1)].clone()
+                } else {
+                    blk_tids[s][rng.usize_below(n)].clone()
+                }
+            };
+            let cond = || e_var(&var("ZF", 1));
+            let mut jmps = Vec::new();
+            let last = b + 1 == n;
+            let kind = if last && !non_returning && rng.chance(2, 3) { 100 } else { rng.below(100) };
+            match kind {
+                0..=44 if !call_pool.is_empty() => {
+                    // extern call
+                    if rng.chance(1, 25) {
+                        jmps.push(jmp(fresh(rng), Jmp::CBranch { target: target(rng), condition: cond() }));
+                    }
+                    let (name, t) = &ext[*rng.pick(&call_pool)];
+                    let may_be_returnless = !must_return.contains(name);
+                    let p_none = if name == "chroot" { 5 } else { 8 };
+                    let ret = if may_be_returnless && rng.chance(1, p_none) { None } else { Some(target(rng)) };
+                    jmps.push(jmp(fresh(rng), Jmp::Call { target: t.clone(), return_: ret }));
+                }
+                45..=52 => {
+                    let t = sub_tids[rng.usize_below(n_subs)].clone();
+                    let ret = if rng.chance(1, 8) { None } else { Some(target(rng)) };
+                    jmps.push(jmp(fresh(rng), Jmp::Call { target: t, return_: ret }));
+                }
+                53..=56 => {
+                    let ret = if rng.chance(1, 6) { None } else { Some(target(rng)) };
+                    jmps.push(jmp(fresh(rng), Jmp::CallInd { target: e_reg("RAX"), return_: ret }));
+                }
+                57..=68 => jmps.push(jmp(fresh(rng), Jmp::Branch(target(rng)))),
+                69..=88 => {
+                    jmps.push(jmp(fresh(rng), Jmp::CBranch { target: target(rng), condition: cond() }));
+                    jmps.push(jmp(fresh(rng), Jmp::Branch(target(rng))));
+                }
+                89..=92 => jmps.push(jmp(fresh(rng), Jmp::BranchInd(e_reg("RAX")))),
+                93 => (), // dead end
+                _ => {
+                    if non_returning {
+                        jmps.push(jmp(fresh(rng), Jmp::Branch(target(rng))));
+                    } else {
+                        if rng.chance(1, 12) {
+                            jmps.push(jmp(fresh(rng), Jmp::CBranch { target: target(rng), condition: cond() }));
+                        }
+                        jmps.push(jmp(fresh(rng), Jmp::Return(e_reg("RAX"))));
+                    }
+                }
+            }
+            let mut defs = Vec::new();
+            if rng.chance(1, 3) {
+                defs.push(assign(fresh(rng), reg("RDI"), e_const(rng.below(64) as i64, 8)));
+            }
+            let mut block = blk(blk_tids[s][b].clone(), defs, jmps);
+            if matches!(block.term.jmps.last().map(|j| &j.term), Some(Jmp::BranchInd(_))) {
+                for _ in 0..rng.range_usize(0, 3) {
+                    block.term.indirect_jmp_targets.push(target(rng));
+                }
+            }
+            blocks.push(block);
+        }
+        subs.push(sub(sub_tids[s].clone(), &format!("fn_{s}"), blocks));
+    }
+    let mut project = project_x64(program(subs, externs, Some(sub_tids[0].clone())));
+    let _ = project.normalize_basic();
+    if rng.bool() {
+        let _ = project.normalize_optimize();
+    }
+    let configs = json!({
+        "CWE367": {"pairs": pairs},
+        "CWE243": {"_comment": "generated", "pairs": [["chroot", "chdir"]], "priviledge_dropping_functions": droppers},
+    });
+    Case { project, configs }
+}
+
+fn run(cfg: &Cfg) -> Report {
+    let shards = cfg.tier.pick(128usize, 1024usize);
+    let per_shard = cfg.tier.pick(1000usize, 2500usize);
+    let mut rep = par_shards(cfg, "c17", shards, |idx, rng, rep| {
+        for i in 0..per_shard {
+            let case = match guard(|| gen_case(rng)) {
+                Ok(c) => c,
+                Err(msg) => {
+                    rep.inconclusive(&format!("generator-or-normalization-panic:{}", panic_site(&msg)));
+                    continue;
+                }
+            };
+            let nt = check_case(&case.project, &case.configs, rep);
+            if idx == 0 && nt && i < 60 && rep.wants_sample() {
+                let p = Prog::new(&case.project);
+                let mut scratch = Report::new();
+                let e367 = expected_367(&p, &case.configs["CWE367"], &mut scratch);
+                let e243 = expected_243(&p, &case.configs["CWE243"], &mut scratch);
+                rep.sample(json!({
+                    "program": show_program(&case.project.program.term), "configs": case.configs,
+                    "expected_CWE367 (check,use,return-site block,address) -> (count, reachable use calls)": format!("{:?}", e367.entries),
+                    "expected_CWE243 (addresses,tids,symbols)": format!("{:?}", e243.entries),
+                }));
+            }
+        }
+    });
+    fixed_cases(&mut rep);
+    rep
+}
+
+/// Hand-written cases: one per clause of the statement.
+fn fixed_cases(rep: &mut Report) {
+    let ext = |n: &str, i: usize| extern_symbol(n, tid(&format!("sub_ext_{n}"), &format!("ext{i}")), &["RDI"], Some("RAX"), false);
+    let (access, open, chroot, chdir, setuid) = (ext("access", 0), ext("open", 1), ext("chroot", 2), ext("chdir", 3), ext("setuid", 4));
+    let call = |id: &str, target: &Tid, ret: Option<&str>| jmp(tid(id, &format!("a_{id}")), Jmp::Call { target: target.clone(), return_: ret.map(|r| tid(r, r)) });
+    let b = |id: &str, j: Vec<Term<Jmp>>| blk(tid(id, id), vec![], j);
+    let ret = |id: &str| jmp(tid(id, id), Jmp::Return(e_reg("RAX")));
+    // f: access; access; open   (first access is blocked by the second), then g() which opens (not intraprocedural)
+    let f = sub(
+        tid("sub_f", "f"),
+        "f",
+        vec![
+            b("f0", vec![call("c0", &access.tid, Some("f1"))]),
+            b("f1", vec![call("c1", &access.tid, Some("f2"))]),
+            b("f2", vec![call("c2", &open.tid, Some("f3"))]),
+            b("f3", vec![call("c3", &access.tid, Some("f4"))]),
+            b("f4", vec![call("c4", &tid("sub_g", "g"), Some("f5"))]),
+            b("f5", vec![ret("r0")]),
+        ],
+    );
+    // g: open; chroot (no return site)
+    let g = sub(tid("sub_g", "g"), "g", vec![b("g0", vec![call("d0", &open.tid, Some("g1"))]), b("g1", vec![ret("r1")]), b("g2", vec![call("d2", &chroot.tid, None)])]);
+    // h: chroot; chdir   /  chroot; (loop)   / setuid, chdir before
+    let h = sub(
+        tid("sub_h", "h"),
+        "h",
+        vec![b("h0", vec![call("e0", &chroot.tid, Some("h1"))]), b("h1", vec![call("e1", &chdir.tid, Some("h2"))]), b("h2", vec![call("e2", &chroot.tid, Some("h3"))]), b("h3", vec![ret("r2")])],
+    );
+    let k = sub(
+        tid("sub_k", "k"),
+        "k",
+        vec![b("k0", vec![call("k_0", &chdir.tid, Some("k1"))]), b("k1", vec![call("k_1", &setuid.tid, Some("k2"))]), b("k2", vec![call("k_2", &chroot.tid, Some("k3"))]), b("k3", vec![ret("r3")])],
+    );
+    let mut project = project_x64(program(vec![f, g, h, k], vec![access, open, chroot, chdir, setuid], None));
+    let _ = project.normalize_basic();
+    let configs = json!({"CWE367": {"pairs": [["access", "open"]]}, "CWE243": {"priviledge_dropping_functions": ["setuid", "seteuid"]}});
+    check_case(&project, &configs, rep);
+    // chroot as second jump of a two-jump block, (a) with and (b) without return site, chdir imported
+    let ext = |n: &str, i: usize| extern_symbol(n, tid(&format!("sub_ext_{n}"), &format!("ext{i}")), &["RDI"], Some("RAX"), false);
+    let cb = |id: &str, t: &str| jmp(tid(id, id), Jmp::CBranch { target: tid(t, t), condition: e_var(&var("ZF", 1)) });
+    for with_return in [true, false] {
+        let (chroot, chdir) = (ext("chroot", 0), ext("chdir", 1));
+        let f = sub(
+            tid("sub_f", "f"),
+            "f",
+            vec![
+                b("b0", vec![cb("j0", "b1"), call("c0", &chroot.tid, if with_return { Some("b1") } else { None })]),
+                b("b1", vec![call("c1", &chdir.tid, Some("b2"))]),
+                b("b2", vec![ret("r0")]),
+            ],
+        );
+        let mut project = project_x64(program(vec![f], vec![chroot, chdir], None));
+        let _ = project.normalize_basic();
+        check_case(&project, &configs, rep);
+    }
+}
+
+fn replay(_cfg: &Cfg, case: &Value) -> Report {
+    let mut rep = Report::new();
+    match project_from_json(&case["project"]) {
+        Ok(project) => {
+            check_case(&project, &case["configs"], &mut rep);
+        }
+        Err(e) => rep.note(format!("cannot parse replay case: {e}")),
+    }
+    rep
 }
